@@ -803,6 +803,9 @@ def normal_follows_winding(rep, prog):
                     if any(a not in anc_c for a in anc_r):
                         continue
                     exits = [x for x in fi.nodes if x.get("k") in ("ReturnStmt", "CXXThrowExpr") and fi.order[id(c)] < fi.order[id(x)] < fi.order[id(r)]]
+                    # only exits that can actually be taken after the call (an exit in the other branch of an if is not one)
+                    cfg_ = fi.cfg()
+                    exits = [x for x in exits if cfg_.may_follow(c, x) is not False]
                     if exits:
                         continue
                     good = r
